@@ -155,6 +155,11 @@ class MirFile:
 
     def const_value(self, name_regex):
         """Evaluate a simple `const NAME: T = { ... }` item: supports literal and one checked Mul/Add of literals."""
+        rx1 = re.compile(r"^const (?:\S*::)?(%s): (\w+) = const (-?\d+)_\w+;$" % name_regex)
+        for l in self.lines:
+            m = rx1.match(l)
+            if m:
+                return int(m.group(3)), m.group(2)
         rx = re.compile(r"^const (?:\S*::)?(%s): (\w+) = \{$" % name_regex)
         for i, l in enumerate(self.lines):
             m = rx.match(l)
